@@ -9,7 +9,7 @@ set_option linter.unusedVariables false
 set_option linter.unusedSimpArgs false
 
 namespace PyGql.Props.C08
-open PyGql.Exec
+open PyGql.AsyncExec
 
 /-! ### gather_futures -/
 
